@@ -6,6 +6,7 @@ package main
 // rewrite.NamedParameters (serialised with Walk order), the names map and the named-parameter edits.
 
 import (
+	"runtime/debug"
 	"errors"
 	"fmt"
 	"io/ioutil"
@@ -19,6 +20,7 @@ import (
 	"github.com/kyleconroy/sqlc/internal/config"
 	"github.com/kyleconroy/sqlc/internal/engine/dolphin"
 	"github.com/kyleconroy/sqlc/internal/engine/postgresql"
+	"github.com/kyleconroy/sqlc/internal/metadata"
 	"github.com/kyleconroy/sqlc/internal/multierr"
 	"github.com/kyleconroy/sqlc/internal/opts"
 	"github.com/kyleconroy/sqlc/internal/source"
@@ -27,6 +29,7 @@ import (
 	"github.com/kyleconroy/sqlc/internal/sql/catalog"
 	"github.com/kyleconroy/sqlc/internal/sql/rewrite"
 	"github.com/kyleconroy/sqlc/internal/sql/sqlerr"
+	"github.com/kyleconroy/sqlc/internal/sql/validate"
 )
 
 func parseWith(engine, src string) ([]ast.Statement, error) {
@@ -165,7 +168,7 @@ func analyzeStatement(engine, schema, query string, positional bool) (res analys
 	conf := config.SQL{Engine: config.Engine(engine), Schema: []string{filepath.Join(dir, "schema.sql")}, Queries: []string{filepath.Join(dir, "query.sql")}}
 	defer func() {
 		if p := recover(); p != nil {
-			res.Impl = J{"err": "panic", "panic": fmt.Sprint(p)}
+			res.Impl = J{"err": "panic", "panic": fmt.Sprint(p), "site": panicSite(debug.Stack())}
 		}
 	}()
 	c := compiler.NewCompiler(conf, config.CombinedSettings{Package: conf})
@@ -184,7 +187,40 @@ func analyzeStatement(engine, schema, query string, positional bool) (res analys
 	}
 	res.Parsed = true
 	raw := stmts[0].Raw
-	rawSQL, _ := source.Pluck(query, raw.StmtLocation, raw.StmtLen)
+	rawSQL, pluckErr := source.Pluck(query, raw.StmtLocation, raw.StmtLen)
+	// the validators parseQuery runs before and between the modelled steps, as data for the model:
+	// "early" = ParamStyle / ParamRef, "late" = Pluck / empty text / FuncCall / metadata.Parse / Cmd
+	pre := J{"early": false, "late": false}
+	func() {
+		defer func() { recover() }()
+		if validate.ParamStyle(raw) != nil || validate.ParamRef(raw) != nil {
+			pre["early"] = true
+		}
+	}()
+	func() {
+		defer func() { recover() }()
+		if rawSQL == "" || pluckErr != nil {
+			pre["late"] = true
+			return
+		}
+		if err := validate.FuncCall(c.Catalog(), raw); err != nil {
+			pre["late"] = true
+			return
+		}
+		cs := postgresql.NewParser().CommentSyntax()
+		if engine == "mysql" {
+			cs = dolphin.NewParser().CommentSyntax()
+		}
+		name, cmd, err := metadata.Parse(strings.TrimSpace(rawSQL), cs)
+		if err != nil {
+			pre["late"] = true
+			return
+		}
+		if err := validate.Cmd(raw.Stmt, name, cmd); err != nil {
+			pre["late"] = true
+		}
+	}()
+	res.In["preflight"] = pre
 	raw2, names, edits := rewrite.NamedParameters(config.Engine(engine), raw)
 	astJ, walkPanics := serializeAST(raw2)
 	var nm [][2]interface{}
